@@ -48,6 +48,10 @@ class Inconclusive(_Ctl):
     pass
 
 
+class Frontier(_Ctl):
+    """Raised while collecting work-splitting prefixes: the path reached the split depth."""
+
+
 class Unmodelled(_Ctl):
     """The code asked the proxy for something the engine does not model (harness error, never a violation)."""
 
@@ -826,6 +830,7 @@ class PathCtx:
         self.max_decisions = max_decisions
         self.pc_size = 0
         self.deadline = None
+        self.frontier_depth = None
 
     # -- solver helpers
     def _check(self, *extra):
@@ -873,6 +878,8 @@ class PathCtx:
             return d.taken
         if len(self.decisions) >= self.max_decisions:
             raise PathTimeout()
+        if self.frontier_depth is not None and len(self.decisions) >= self.frontier_depth:
+            raise Frontier()
         m = self.get_model()
         v = z3.is_true(m.eval(z, model_completion=True))
         nz = z3.Not(z)
@@ -1275,9 +1282,10 @@ class Explorer:
         self.stats = PathStats()
 
     # one symbolic path ------------------------------------------------------
-    def _run_path(self, prefix, start_model):
+    def _run_path(self, prefix, start_model, frontier_depth=None):
         global _CTX
         ctx = PathCtx(prefix, self.qto, start_model)
+        ctx.frontier_depth = frontier_depth
         ctx.deadline = time.monotonic() + self.path_wall
         s = Sym(ctx)
         s.explorer = self
@@ -1295,6 +1303,8 @@ class Explorer:
                 s._restore()
         except Infeasible:
             outcome = "pruned"
+        except Frontier:
+            outcome = "frontier"
         except CutPath as e:
             outcome = "cut"
             info = str(e)
@@ -1414,10 +1424,33 @@ class Explorer:
                                            "params": jsonable(self.params)})
 
     # main loop ----------------------------------------------------------------
-    def run(self):
+    def frontier(self, depth):
+        """Work splitting: returns decision prefixes [(taken, aux), ...] that partition the execution tree at `depth`."""
+        out = []
+        prefix = []
+        start_model = None
+        while True:
+            ctx, s, outcome, info = self._run_path(prefix, start_model, frontier_depth=depth)
+            dec = ctx.decisions
+            if outcome != "pruned":
+                # paths that end before the split depth are complete sub-trees of their own
+                out.append([(d.taken, d.aux) for d in dec])
+            i = len(dec) - 1
+            while i >= 0 and not dec[i].alt:
+                i -= 1
+            if i < 0:
+                break
+            d = dec[i]
+            prefix = dec[:i] + [Decision(not d.taken, False, d.aux, None)]
+            start_model = d.alt_model
+            d.alt_model = None
+        return out
+
+    def run(self, initial_prefix=None):
         st = self.stats
         t0 = time.monotonic()
-        prefix = []
+        prefix = [Decision(t, False, a, None) for (t, a) in (initial_prefix or [])]
+        floor = len(prefix)
         start_model = None
         while True:
             if self.max_paths is not None and st.paths + st.pruned >= self.max_paths:
@@ -1476,9 +1509,9 @@ class Explorer:
             # backtrack
             dec = ctx.decisions
             i = len(dec) - 1
-            while i >= 0 and not dec[i].alt:
+            while i >= floor and not dec[i].alt:
                 i -= 1
-            if i < 0:
+            if i < floor:
                 break
             d = dec[i]
             flipped = Decision(not d.taken, False, d.aux, None)
